@@ -60,6 +60,11 @@ pub fn gen_name(rng: &mut Rng, extremes: bool) -> String {
         }
         return s;
     }
+    if extremes && rng.chance(1, 150) {
+        // lengths around the u8 / i16 marks
+        let n = *rng.pick(&[255usize, 256, 257, 32_767, 32_768, 40_000]);
+        return (0..n).map(|i| char::from(b'A' + ((i * 11 + n) % 26) as u8)).collect();
+    }
     if extremes && rng.chance(1, 20) {
         let n = rng.range(20, 400) as usize;
         return (0..n).map(|i| char::from(b'a' + ((i * 7 + n) % 26) as u8)).collect();
